@@ -1,0 +1,146 @@
+/*
+ * Atree - Scalable Arrays and Ordered Maps
+ *
+ * Copyright Flow Foundation
+ *
+ * Licensed under the Apache License, Version 2.0 (the "License");
+ * you may not use this file except in compliance with the License.
+ * You may obtain a copy of the License at
+ *
+ *   http://www.apache.org/licenses/LICENSE-2.0
+ *
+ * Unless required by applicable law or agreed to in writing, software
+ * distributed under the License is distributed on an "AS IS" BASIS,
+ * WITHOUT WARRANTIES OR CONDITIONS OF ANY KIND, either express or implied.
+ * See the License for the specific language governing permissions and
+ * limitations under the License.
+ */
+
+//go:build verif
+
+package atree
+
+//@ # ---------------------------------------------------------------- copy of a single-slab container of plain values (C17)
+//@ # ccopy(st): storable st is a plain, non-reference value that can be copied (answer of CanCopyNonRefSimple, a function of the storable)
+//@ # ecopy(el): the same for a map element
+//@ ghost ccopy : fn(st ref) bool
+//@ ghost ecopy : fn(el ref) bool
+
+//@ iface Storable.CanCopyNonRefSimple() (ok)
+//@   ensures ok == ccopy(recv)
+//@   pure
+
+//@ # a copy is offered exactly when CanCopyNonRefSimple says so, and then it succeeds; the copy has the size of the original
+//@ iface Storable.CopyNonRefSimple() (c, err)
+//@   ensures ccopy(recv) ==> err == nil
+//@   ensures err == nil ==> c != nil && bs(c) == bs(recv)
+//@   modifies alloc
+
+//@ iface element.canCopyNonRefSimple() (ok)
+//@   ensures ok == ecopy(recv)
+//@   pure
+
+//@ iface element.copyNonRefSimple() (c, err)
+//@   ensures ecopy(recv) ==> err == nil
+//@   ensures err == nil ==> c != nil && fresh(c) && esz(c) == old(esz(recv))
+//@   ensures err == nil && is(recv, *singleElement) ==> is(c, *singleElement)
+//@   modifies alloc
+
+//@ iface elements.canCopyNonRefSimple() (ok)
+//@   pure
+
+//@ func (e *singleElement) canCopyNonRefSimple() (ok)  serves C17
+//@   requires e.key != nil && e.value != nil
+//@   ensures ok == (ccopy(e.key) && ccopy(e.value))
+//@   pure
+
+//@ func (e *singleElement) copyNonRefSimple() (c, err)  serves C17
+//@   requires e.key != nil && e.value != nil
+//@   ensures ccopy(e.key) && ccopy(e.value) ==> err == nil
+//@   ensures err == nil ==> c != nil && is(c, *singleElement) && fresh(c) && as(c, *singleElement).size == e.size &&
+//@        as(c, *singleElement).key != nil && as(c, *singleElement).value != nil
+//@   modifies alloc
+
+//@ # the list of digests and the list of elements of the copy are new backing stores (nothing is shared with the source), the
+//@ # digests are equal, every element is a fresh copy, and the source is not written
+//@ func (e *hkeyElements) canCopyNonRefSimple() (ok)  serves C17
+//@   requires hkShape(e)
+//@   ensures ok == (forall k :: 0 <= k && k < len(e.elems) ==> ecopy(e.elems[k]))
+//@   pure
+//@   loop 1: invariant forall k :: 0 <= k && k < i ==> ecopy(e.elems[k])
+
+//@ func (e *hkeyElements) copyNonRefSimple() (r, err)  serves C17
+//@   requires hkShape(e)
+//@   ensures (forall k :: 0 <= k && k < len(e.elems) ==> ecopy(e.elems[k])) ==> err == nil
+//@   ensures err == nil ==> r != nil && is(r, *hkeyElements) && fresh(r) && as(r, *hkeyElements).size == e.size && as(r, *hkeyElements).level == e.level &&
+//@        len(as(r, *hkeyElements).hkeys) == len(e.hkeys) && (forall k :: 0 <= k && k < len(e.hkeys) ==> as(r, *hkeyElements).hkeys[k] == e.hkeys[k]) &&
+//@        len(as(r, *hkeyElements).elems) == len(e.elems) && (forall k :: 0 <= k && k < len(e.elems) ==> as(r, *hkeyElements).elems[k] != nil && !allocatedBefore(as(r, *hkeyElements).elems[k]))
+//@   ensures err == nil ==> origin(as(r, *hkeyElements).hkeys) != origin(e.hkeys) && origin(as(r, *hkeyElements).elems) != origin(e.elems)
+//@   ensures err != nil ==> r == nil
+//@   modifies alloc
+//@   loop 1: invariant 0 <= i && i <= len(e.elems) && len(copiedElements) == len(e.elems) && origin(copiedElements) != origin(e.elems) &&
+//@        (forall k :: 0 <= k && k < i ==> copiedElements[k] != nil && !allocatedBefore(copiedElements[k]))
+
+//@ func (e *singleElements) canCopyNonRefSimple() (ok)  serves C17
+//@   requires wfSEs(e) && (forall k :: 0 <= k && k < len(e.elems) ==> e.elems[k].key != nil && e.elems[k].value != nil)
+//@   ensures ok == (forall k :: 0 <= k && k < len(e.elems) ==> ccopy(e.elems[k].key) && ccopy(e.elems[k].value))
+//@   pure
+//@   loop 1: invariant forall k :: 0 <= k && k < i ==> ccopy(e.elems[k].key) && ccopy(e.elems[k].value)
+
+//@ func (e *singleElements) copyNonRefSimple() (r, err)  serves C17
+//@   requires wfSEs(e) && (forall k :: 0 <= k && k < len(e.elems) ==> e.elems[k].key != nil && e.elems[k].value != nil)
+//@   ensures (forall k :: 0 <= k && k < len(e.elems) ==> ccopy(e.elems[k].key) && ccopy(e.elems[k].value)) ==> err == nil
+//@   ensures err == nil ==> r != nil && is(r, *singleElements) && fresh(r) && as(r, *singleElements).size == e.size && as(r, *singleElements).level == e.level &&
+//@        len(as(r, *singleElements).elems) == len(e.elems) && origin(as(r, *singleElements).elems) != origin(e.elems) &&
+//@        (forall k :: 0 <= k && k < len(e.elems) ==> as(r, *singleElements).elems[k] != nil && !allocatedBefore(as(r, *singleElements).elems[k]))
+//@   ensures err != nil ==> r == nil
+//@   modifies alloc
+//@   loop 1: invariant 0 <= i && i <= len(e.elems) && len(copiedElements) == len(e.elems) && origin(copiedElements) != origin(e.elems) &&
+//@        (forall k :: 0 <= k && k < i ==> copiedElements[k] != nil && !allocatedBefore(copiedElements[k]))
+
+//@ # array leaf: copy is offered exactly when there is no sibling and every element is plain; the copy is a standalone root slab
+//@ # with the new id, the same count, a new element list, and the standalone-root size
+//@ func (a *ArrayDataSlab) canCopyWithoutSlabID() (ok)  serves C17
+//@   requires forall k :: 0 <= k && k < len(a.elements) ==> a.elements[k] != nil
+//@   ensures ok == (a.next == SlabIDUndefined && (forall k :: 0 <= k && k < len(a.elements) ==> ccopy(a.elements[k])))
+//@   pure
+//@   loop 1: invariant a.next == SlabIDUndefined && (forall k :: 0 <= k && k < i ==> ccopy(a.elements[k]))
+
+//@ iface TypeInfo.Copy() (t)
+//@   ensures t != nil
+//@   modifies alloc
+
+//@ func (a *ArrayDataSlab) copyWithNewSlabID(newID) (r, err)  serves C06 C17
+//@   requires (forall k :: 0 <= k && k < len(a.elements) ==> a.elements[k] != nil) && (a.inlined ==> a.header.size >= 17)
+//@   requires a.extraData != nil ==> a.extraData.TypeInfo != nil
+//@   ensures a.next == SlabIDUndefined && (forall k :: 0 <= k && k < len(a.elements) ==> ccopy(a.elements[k])) ==> err == nil
+//@   ensures a.next != SlabIDUndefined ==> err != nil
+//@   ensures[C17] err == nil ==> r != nil && is(r, *ArrayDataSlab) && fresh(r) && as(r, *ArrayDataSlab).header.slabID == newID && as(r, *ArrayDataSlab).header.count == a.header.count &&
+//@        !as(r, *ArrayDataSlab).inlined && as(r, *ArrayDataSlab).next == SlabIDUndefined && len(as(r, *ArrayDataSlab).elements) == len(a.elements) &&
+//@        origin(as(r, *ArrayDataSlab).elements) != origin(a.elements) && (a.extraData != nil ==> as(r, *ArrayDataSlab).extraData != nil && as(r, *ArrayDataSlab).extraData != a.extraData)
+//@   ensures[C06 C17] err == nil ==> as(r, *ArrayDataSlab).header.size == ite(a.inlined, a.header.size - 17 + 5, a.header.size) &&
+//@        sum(bs, as(r, *ArrayDataSlab).elements, len(a.elements)) == sum(bs, a.elements, len(a.elements))
+//@   ensures err != nil ==> r == nil
+//@   modifies ghost.touched, alloc
+//@   loop 1: invariant 0 <= i && i <= len(a.elements) && len(copiedElements) == len(a.elements) && origin(copiedElements) != origin(a.elements) &&
+//@        sum(bs, copiedElements, i) == sum(bs, a.elements, i) && (forall k :: 0 <= k && k < i ==> copiedElements[k] != nil)
+
+//@ func (a *Array) CanCopyNonRefSimple() (ok)  serves C17
+//@   requires isArr(a.root)
+//@   assume is(a.root, *ArrayDataSlab) ==> (forall k :: 0 <= k && k < len(as(a.root, *ArrayDataSlab).elements) ==> as(a.root, *ArrayDataSlab).elements[k] != nil) because "tree invariant: leaves hold non-nil elements"
+//@   ensures ok == (is(a.root, *ArrayDataSlab) && as(a.root, *ArrayDataSlab).next == SlabIDUndefined &&
+//@        (forall k :: 0 <= k && k < len(as(a.root, *ArrayDataSlab).elements) ==> ccopy(as(a.root, *ArrayDataSlab).elements[k])))
+//@   pure
+
+//@ func (a *Array) CopyNonRefSimple(address) (r, err)  serves C03 C17
+//@   requires isArr(a.root) && a.Storage != nil
+//@   assume is(a.root, *ArrayDataSlab) ==> (forall k :: 0 <= k && k < len(as(a.root, *ArrayDataSlab).elements) ==> as(a.root, *ArrayDataSlab).elements[k] != nil) &&
+//@        (as(a.root, *ArrayDataSlab).inlined ==> as(a.root, *ArrayDataSlab).header.size >= 17) &&
+//@        (as(a.root, *ArrayDataSlab).extraData != nil ==> as(a.root, *ArrayDataSlab).extraData.TypeInfo != nil) because "tree invariant at the root"
+//@   ensures[C17] is(a.root, *ArrayMetaDataSlab) ==> err != nil && r == nil
+//@   ensures[C17] err == nil ==> r != nil && fresh(r) && r.Storage == a.Storage && r.root != a.root && is(r.root, *ArrayDataSlab) && fresh(r.root) &&
+//@        hdrOf(r.root).slabID.address == address &&
+//@        origin(as(r.root, *ArrayDataSlab).elements) != origin(as(a.root, *ArrayDataSlab).elements)
+//@   ensures[C03 C17] err == nil ==> sto[hdrOf(r.root).slabID] == r.root && has(stored, r.root)
+//@   ensures[C17] err != nil ==> r == nil
+//@   modifies ghost.sto, ghost.stored, ghost.touched, alloc
